@@ -57,6 +57,9 @@ var targets = []target{
 	{"sequencers/single/queue.go", "", "batchKey"},
 	{"sequencers/single/queue.go", "BatchQueue", "AddBatch"},
 	{"sequencers/single/queue.go", "BatchQueue", "Next"},
+	{"sequencers/single/sequencer.go", "Sequencer", "isValid"},
+	{"sequencers/single/sequencer.go", "Sequencer", "SubmitBatchTxs"},
+	{"sequencers/single/sequencer.go", "Sequencer", "GetNextBatch"},
 	{"types/da.go", "", "SubmitWithHelpers"},
 	{"types/da.go", "", "RetrieveWithHelpers"},
 }
@@ -246,6 +249,12 @@ func (t *tr) expr(e ast.Expr) string {
 				name := p + "." + f.Sel.Name
 				if ownPkgs[p] {
 					name = f.Sel.Name
+				}
+				if name == "fmt.Errorf" && len(x.Args) >= 2 {
+					// an error that WRAPS another (%w as the last verb) keeps its identity for errors.Is
+					if bl, ok := x.Args[0].(*ast.BasicLit); ok && strings.HasSuffix(strings.Trim(bl.Value, "\"`"), "%w") {
+						return "(ECall " + q("fmt.Errorf%w") + " [" + t.expr(x.Args[len(x.Args)-1]) + "])"
+					}
 				}
 				if name == "fmt.Errorf" || name == "errors.New" || name == "fmt.Printf" {
 					return "(ECall " + q(name) + " [])"
